@@ -207,8 +207,11 @@ def check(m, run):
     with run.corroborating(pv_ok, 'PV4', rules=('PV1.paired-swap', 'PV1.full-row-swap', 'PV1.permutation-starts-as-identity')):
         check_pivot(m, run, piv)
     pv2(m, run, piv)
-    pv5(m, run, piv)
-    _sdp.la4(m, run)       # determinant, inverse and pivoted solve on every non-singular 0/1 matrix up to 3 x 3, exactly
+    n_la4 = len(run.obs)
+    _sdp.la4(m, run)       # determinant, inverse and pivoted solve on every non-singular 0/1 matrix up to 3 x 3, exactly; matrix_pivot is reached every time
+    la4_ok = all(o.ok for o in run.obs[n_la4:])
+    with run.corroborating(la4_ok, 'LA4', rules=('PV5.pivoting-on-every-path',)):
+        pv5(m, run, piv)
     run.floor('PV2.pivot-companion', 3, 'matrix_inverse, matrix_determinant, lu_factor')
     # the LU kernels are decided exactly on symbolic matrices (LA3); the rule that reads how lu_factor spells the permutation corroborates
     from .. import skel_drivers as _sd
